@@ -89,6 +89,7 @@ func genC15Config(c *Chooser) (cfg string, entries map[string][]string, order []
 		b.WriteString("self-hosted-runner:\n  labels: [gpu, linux-*]\n")
 	}
 	n := c.Int("world.npaths", 4)
+	anchors := n > 1 && c.Weighted("world.cfganchors", 1, 4)
 	if n > 0 {
 		b.WriteString("paths:\n")
 		for i := 0; i < n; i++ {
@@ -96,7 +97,29 @@ func genC15Config(c *Chooser) (cfg string, entries map[string][]string, order []
 			if _, dup := entries[g]; dup {
 				continue
 			}
-			fmt.Fprintf(&b, "  %q:\n    ignore:\n", g)
+			if anchors && len(order) > 0 {
+				// a later entry takes over the first entry's patterns by a YAML alias: as its whole
+				// value, as its pattern list, or through a merge key - all mean the same patterns
+				form := c.Int("world.cfgalias", 4)
+				switch form {
+				case 1:
+					fmt.Fprintf(&b, "  %q: *e0\n", g)
+				case 2:
+					fmt.Fprintf(&b, "  %q:\n    ignore: *l0\n", g)
+				case 3:
+					fmt.Fprintf(&b, "  %q:\n    <<: *e0\n", g)
+				}
+				if form != 0 {
+					entries[g] = append([]string{}, entries[order[0]]...)
+					order = append(order, g)
+					continue
+				}
+			}
+			if anchors && len(order) == 0 {
+				fmt.Fprintf(&b, "  %q: &e0\n    ignore: &l0\n", g)
+			} else {
+				fmt.Fprintf(&b, "  %q:\n    ignore:\n", g)
+			}
 			m := 1 + c.Int("world.nign", 3)
 			for j := 0; j < m; j++ {
 				if c.Weighted("world.rawitem", 1, 12) {
@@ -270,6 +293,23 @@ func (c15) Eval(c *Chooser, env *Env) *Outcome {
 		cwd = "/w/lnk-to-root"
 		o.probe("cwd_through_a_directory_link", 1)
 	}
+	// what getwd answers: the launcher's spelling of the directory ($PWD is handed through verbatim
+	// when it names the current directory), which need not be a clean path
+	cwdAsGiven := cwd
+	if cwd != "/" && cwd != "/w/lnk-to-root" && c.Weighted("world.cwduncleanspelling", 1, 6) {
+		switch c.Int("world.cwdspellingkind", 4) {
+		case 0:
+			cwdAsGiven = cwd + "/"
+		case 1:
+			cwdAsGiven = path.Dir(cwd) + "//" + path.Base(cwd)
+		case 2:
+			cwdAsGiven = path.Dir(cwd) + "/./" + path.Base(cwd)
+		case 3:
+			cwdAsGiven = cwd + "/../" + path.Base(cwd)
+		}
+		cwdAsGiven = strings.Replace(cwdAsGiven, "///", "//", 1)
+		o.probe("cwd_spelled_uncleanly", 1)
+	}
 	lintFiles := files
 	if mode == 1 || mode == 4 {
 		lintFiles = files[:1]
@@ -349,7 +389,7 @@ func (c15) Eval(c *Chooser, env *Env) *Outcome {
 		RelocateDir(diskU, root+"/.github/workflows", "/shared/workflows-of"+strings.ReplaceAll(root, "/", "-"))
 		o.probe("workflows_dir_is_a_symlink", 1)
 	}
-	w := &World{Disk: disk, Cwd: cwd, CPUs: []int{2, 1, 4}[c.Int("world.cpus", 3)], API: APIMain, Args: append(append([]string{}, args...), spelled...), Note: "C15 filtered run"}
+	w := &World{Disk: disk, Cwd: cwdAsGiven, CPUs: []int{2, 1, 4}[c.Int("world.cpus", 3)], API: APIMain, Args: append(append([]string{}, args...), spelled...), Note: "C15 filtered run"}
 	if mode == 4 {
 		// the content arrives on stdin; the file name (any spelling) says where it belongs
 		w.Args = append(append([]string{}, args...), "-stdin-filename", spelled[0], "-")
